@@ -408,13 +408,13 @@ def gen_RotTypes():
         for n in ast.walk(exp):
             if isinstance(n, ast.Call) and attr_name(n.func) == "pack":
                 order = [ast.unparse(a) for a in n.args[1:]]
-    d("cbV1HeaderOrder", "List String", "[" + ", ".join(lstr(x) for x in order) + "]", "argument order of the header `pack`")
+    meta["cbV1HeaderOrder"] = order   # informational: argument names of the header `pack` (local names may be renamed freely)
     v1p = _fun(_cls(t, "CertBlockV1"), "parse")
     src = ast.unparse(v1p) if v1p else ""
     pat("cbV1ParseRestoresImageLength", "image_length = header.image_length" in src)
     v1e = _fun(_cls(t, "CertBlockV1"), "export")
     src = ast.unparse(v1e) if v1e else ""
-    d("cbV1CertLenFormat", "String", lstr("<I" if "pack('<I', cert.raw_size)" in src else ""))
+    pat("cbV1CertLenIsLE32", "pack('<I', cert.raw_size)" in src)
 
     fmt = lit(class_attr(t, "CertificateBlockHeader", "FORMAT"), "")
     le, ws = fmt_widths(fmt)
@@ -428,7 +428,7 @@ def gen_RotTypes():
         for n in ast.walk(exp):
             if isinstance(n, ast.Call) and attr_name(n.func) == "pack":
                 order = [ast.unparse(a) for a in n.args[1:]]
-    d("cbV21HeaderOrder", "List String", "[" + ", ".join(lstr(x) for x in order) + "]")
+    meta["cbV21HeaderOrder"] = order
 
     rkr = _cls(t, "RootKeyRecord")
     cf = _fun(rkr, "_calculate_flags")
@@ -546,10 +546,9 @@ def gen_RotTypes():
     d("habEccKeyType", "List (String × Nat)",
       "[" + ", ".join(f"({lstr(str(k).lower())}, {nat(v)})" for k, v in dict_pairs(class_attr(t, "SrkItemEcc", "ECC_KEY_TYPE"))) + "]")
     src = ast.unparse(_fun(_cls(t, "SrkItemRSA"), "export") or ast.parse("0"))
-    d("habRsaItemFormat", "String", lstr(">4B2H" if "pack('>4B2H', 0, 0, 0, self.flag, len(self.modulus), len(self.exponent))" in src else ""))
+    pat("habRsaItemPack", "pack('>4B2H', 0, 0, 0, self.flag, len(self.modulus), len(self.exponent))" in src)
     src = ast.unparse(_fun(_cls(t, "SrkItemEcc"), "export") or ast.parse("0"))
-    d("habEccItemFormat", "String",
-      lstr(">8B" if "pack('>8B', 0, 0, 0, self.flag, curve_id, 0, self.key_size >> 8 & 255, self.key_size & 255)" in src else ""))
+    pat("habEccItemPack", "pack('>8B', 0, 0, 0, self.flag, curve_id, 0, self.key_size >> 8 & 255, self.key_size & 255)" in src)
     src = ast.unparse(_fun(_cls(t, "SrkTable"), "export_fuses") or ast.parse("0"))
     pat("habFusesIsHashOfItemHashes", "data += srk.sha256()" in src and "return sha256(data).digest()" in src)
     t = parse(HDR)
